@@ -388,7 +388,8 @@ PROPS = {
                       "what": "Time48 wire round trip and eq_fudged on a grid around the byte and fudge edges; Key::new against the RFC 8945 "
                               "5.2.2.1 length rule for all algorithms and lengths 0..=70; request/answer/three-answer sequences signed and "
                               "verified for every signing length of HMAC-SHA256, one flipped bit rejected; 99 unsigned answers accepted, the "
-                              "100th refused -- on the real crate"},
+                              "100th refused; request MACs of all four algorithms under key names in lower, upper and mixed case against an "
+                              "independent RFC 8945 4.3.3 computation (ring), accepted by a server spelling the key name differently -- on the real crate"},
         "kani": [],
         "replays": [
             {"bin": "d36_tsig_sequence_truncated_mac", "crate": "replay_tsig", "finding": "D36"},
